@@ -266,15 +266,19 @@ structure RtenFile where
   deriving DecidableEq, Repr
 
 /-- `constant_data_from_storage_offset::<T>` (both the aligned-view and the copy branch build
-`bytes.len() / size_of::<T>()` elements). -/
+`bytes.len() / size_of::<T>()` elements): `try_fold(1, checked_mul)` over the dims, then
+`checked_mul(size_of::<T>())`, `checked_add(offset)`, `slice::get`, `try_from_data`. -/
 def fromStorageOffset (size : U) (shape : List U) (offset storageLen : U) : Outcome :=
-  match checkedProd shape size with
+  match checkedProd shape 1 with
   | none => .err .offset
-  | some byteLen =>
-    match checkedAdd offset byteLen with
+  | some n =>
+    match checkedMul n size with
     | none => .err .offset
-    | some stop =>
-      if stop ≤ storageLen then tryFromData shape (byteLen / size) else .err .offset
+    | some byteLen =>
+      match checkedAdd offset byteLen with
+      | none => .err .offset
+      | some stop =>
+        if stop ≤ storageLen then tryFromData shape (byteLen / size) else .err .offset
 
 /-- `add_graph_constant`. -/
 def addGraphConstant (f : RtenFile) (c : RtenConst) : Outcome :=
